@@ -245,7 +245,7 @@ func (g *glueEnv) runInf(c glueCase) (res string) {
 	}
 	named := m.Name != ""
 	// sendInformerMetric: metric.Peer = c.id; PublishMetric. Then a valid marker; pubsub delivers a
-	// publisher's own messages in order, so once the marker is stored the metric is stored or never will be.
+	// publisher's own messages promptly; the marker bounds the wait (see the grace period below).
 	g.serial++
 	name := fmt.Sprintf("glue-%d", g.serial)
 	pm := *m
@@ -266,6 +266,12 @@ func (g *glueEnv) runInf(c glueCase) (res string) {
 		if time.Now().After(deadline) {
 			return "# inconclusive marker not received"
 		}
+		time.Sleep(time.Millisecond)
+	}
+	// pubsub validates messages concurrently: the marker may overtake the metric by a moment. Only after the
+	// marker AND a grace period without the metric is it counted as not sent.
+	grace := time.Now().Add(400 * time.Millisecond)
+	for st.PeerLatest(name, test.PeerID1) == nil && time.Now().Before(grace) {
 		time.Sleep(time.Millisecond)
 	}
 	if st.PeerLatest(name, test.PeerID1) != nil && pub == "dropped" {
